@@ -2,10 +2,10 @@ SPECIFICATION TraceSpec
 CONSTANTS
   Ids = {}
   OutId = 0
-  DMax = 0
+  DMax = 1000000
   Vals = {}
-  Bound = 0
-  Depth = 0
+  Bound = 1000000000
+  Depth = 1000000000
 INVARIANTS OutcomeMatchesConformability ResultIsDefinition InputsUntouched ReturnedValuesMatch WellFormedHeap
 POSTCONDITION TraceAccepted
 CHECK_DEADLOCK FALSE
